@@ -647,7 +647,7 @@ def _e2e(ctx):
 
 def correspondence(ctx):
     r = common.rng('c16')
-    n = 1500 if not ctx.thorough else 60000
+    n = 1000 if not ctx.thorough else 20000
     cases = seed_cases() + [gen_case(r) for _ in range(n)]
     results, disagreements, dist, nontriv, evaluated = _run(cases)
     pick = [i for i in (0, 1, 2, len(cases) // 2, len(cases) - 1)]
